@@ -109,29 +109,31 @@ def scalarBaseMult (tables : List (List affineCached)) (digits : List Int) : Poi
 
 def basepointNafTable : List affineCached := naf8Table generator
 
-/-- `(*Point).VarTimeDoubleScalarBaseMult`; `none` is an index out of range -/
-def doubleScalarMult (bTable : List affineCached) (aNaf bNaf : List Int) (A : Point) : Option Point :=
-  let aTable := naf5Table A
-  let step (st : Option projP2) (k : Nat) : Option projP2 :=
-    match st with
+/-- one position of `VarTimeDoubleScalarBaseMult` (`i = 255 − k`): `tmp1.Double(tmp2)`, then `± aTable[|a|/2]`, then `± bTable[|b|/2]`,
+then `tmp2.FromP1xP1(tmp1)`; `none` is an index out of range -/
+def doubleStep (aTable : List projCached) (bTable : List affineCached) (aNaf bNaf : List Int) (st : Option projP2) (k : Nat) : Option projP2 :=
+  match st with
+  | none => none
+  | some tmp2 =>
+    let i := 255 - k
+    let a := aNaf.getD i 0
+    let b := bNaf.getD i 0
+    let tmp1 := projP1xP1_Double zQ tmp2
+    let tmp1 : Option projP1xP1 :=
+      if a > 0 then (aTable[(a / 2).toNat]?).map fun m => projP1xP1_Add zQ (Point_fromP1xP1 zP tmp1) m
+      else if a < 0 then (aTable[((-a) / 2).toNat]?).map fun m => projP1xP1_Sub zQ (Point_fromP1xP1 zP tmp1) m
+      else some tmp1
+    match tmp1 with
     | none => none
-    | some tmp2 =>
-      let i := 255 - k
-      let a := aNaf.getD i 0
-      let b := bNaf.getD i 0
-      let tmp1 := projP1xP1_Double zQ tmp2
+    | some tmp1 =>
       let tmp1 : Option projP1xP1 :=
-        if a > 0 then (aTable[(a / 2).toNat]?).map fun m => projP1xP1_Add zQ (Point_fromP1xP1 zP tmp1) m
-        else if a < 0 then (aTable[((-a) / 2).toNat]?).map fun m => projP1xP1_Sub zQ (Point_fromP1xP1 zP tmp1) m
+        if b > 0 then (bTable[(b / 2).toNat]?).map fun m => projP1xP1_AddAffine zQ (Point_fromP1xP1 zP tmp1) m
+        else if b < 0 then (bTable[((-b) / 2).toNat]?).map fun m => projP1xP1_SubAffine zQ (Point_fromP1xP1 zP tmp1) m
         else some tmp1
-      match tmp1 with
-      | none => none
-      | some tmp1 =>
-        let tmp1 : Option projP1xP1 :=
-          if b > 0 then (bTable[(b / 2).toNat]?).map fun m => projP1xP1_AddAffine zQ (Point_fromP1xP1 zP tmp1) m
-          else if b < 0 then (bTable[((-b) / 2).toNat]?).map fun m => projP1xP1_SubAffine zQ (Point_fromP1xP1 zP tmp1) m
-          else some tmp1
-        tmp1.map fun t => projP2_FromP1xP1 z2 t
-  ((List.range 256).foldl step (some (projP2_Zero z2))).map fun tmp2 => Point_fromP2 zP tmp2
+      tmp1.map fun t => projP2_FromP1xP1 z2 t
+
+/-- `(*Point).VarTimeDoubleScalarBaseMult` -/
+def doubleScalarMult (bTable : List affineCached) (aNaf bNaf : List Int) (A : Point) : Option Point :=
+  ((List.range 256).foldl (doubleStep (naf5Table A) bTable aNaf bNaf) (some (projP2_Zero z2))).map fun tmp2 => Point_fromP2 zP tmp2
 
 end PatVerif.Model.ScalarMultLit
